@@ -30,6 +30,33 @@ func runC19(c *Ctx) {
 	// built without JSON defaults) default producer type never leads the offers
 	ruleOffersDefaultLast(c, "R19.2")
 	ruleOperationLookedUpByRelativePath(c, "R19.2")
+	// validation, the handler table and the router all analyse the description AS IT IS when they are built
+	// (analysis.New(doc.Spec())): none of them reuses the analysis the document cached when it was loaded, which does not
+	// know operations added since — a validated operation would then not be routed
+	nAn := 0
+	for _, fn := range p.LibFuncs() {
+		for _, ci := range callsIn(fn, "github.com/go-openapi/analysis.New") {
+			if ci.Parent() == fn {
+				nAn++
+			}
+		}
+		for _, in := range instrs(fn) {
+			var x ssa.Value
+			var idx int
+			switch fa := in.(type) {
+			case *ssa.FieldAddr:
+				x, idx = fa.X, fa.Field
+			case *ssa.Field:
+				x, idx = fa.X, fa.Field
+			default:
+				continue
+			}
+			if fieldIs(x.Type(), idx, "github.com/go-openapi/loads.Document", "Analyzer") {
+				c.obD("R19.2", in, "description-analysed-as-it-stands", false, "the library never uses the analysis cached in the loaded document (Document.Analyzer): every table is built from a fresh analysis of the current description", "reads Document.Analyzer in "+fnName(fn))
+			}
+		}
+	}
+	c.obRF("R19.2", p.Fn("rt/middleware.newDefaultRouteBuilder"), "analyses-current-description", nAn >= 4, "the library analyses the current description where it builds its tables", fmt.Sprintf("%d calls of analysis.New", nAn))
 	val := p.Fn("(*rt/middleware/untyped.API).validate")
 	type pair struct{ name, field, required string }
 	pairs := []pair{
@@ -499,7 +526,9 @@ func runC19(c *Ctx) {
 			}
 		}
 	}
-	c.obF("R19.3", p.Fn("(*rt/middleware.Context).Respond"), "tabled-panic-sites", nPanic >= 3 && nPanic <= 5, "the tabled panic sites exist (missing producer, produce error)", fmt.Sprintf("%d request-reachable panics", nPanic))
+	// (a count that differs from the table is a deviation to re-confirm, not a contradiction: each site outside Respond
+	// is judged on its own above)
+	c.obRF("R19.3", p.Fn("(*rt/middleware.Context).Respond"), "tabled-panic-sites", nPanic >= 3 && nPanic <= 5, "the tabled panic sites exist (missing producer, produce error)", fmt.Sprintf("%d request-reachable panics", nPanic))
 	c.obF("R19.3", p.Fn("(*rt/middleware.Context).BindValidRequest"), "tabled-consumer-miss-sites", n500 >= 1 && n500 <= 2, "the consumer-miss sites are the tabled ones (one per gate, or one shared by both)", fmt.Sprintf("%d", n500))
 }
 
